@@ -9,7 +9,8 @@ from dvc_data.hashfile.tree import Tree
 
 from vf.hlib import B, HarnessGap, NoTracing, cube, journal, pick, violation
 
-KEYS = [("b",), ("B",), ("a", "b", "c"), ("é x",)]  # two keys differing only by case, a nested and a non-ASCII one
+# two keys differing only by case; two nested keys differing only in Unicode normalisation form (decomposed / composed e-acute, with a space)
+KEYS = [("b",), ("B",), ("a", "e\u0301 b", "c"), ("a", "\u00e9 b", "c")]
 N = int(cube("n", 3))
 PERMS = list(itertools.permutations(range(N)))
 POOL = ["11111111111111111111111111111111", "22222222222222222222222222222222", "d41d8cd98f00b204e9800998ecf8427e"]
